@@ -720,6 +720,29 @@ func jsonLiterals(ints []*big.Int, r *vh.Rng, extra int) []string {
 	} {
 		add(s)
 	}
+	// dense sweep around the uint64 cutoff (parseUint64_simple's pre-multiply guard fUint64Cutoff =
+	// 1844674407370955162) and its power-of-ten multiples, and around MaxUint64 / 2^63
+	for _, stem := range []string{"1844674407370955161", "1844674407370955162", "1844674407370955163"} {
+		for d := 0; d <= 9; d++ {
+			for k := 0; k <= 3; k++ {
+				l := stem + fmt.Sprint(d) + strings.Repeat("0", k)
+				for _, sg := range []string{"", "-"} {
+					add(sg + l)
+					add(sg + l + "e0")
+					add(sg + l + "e1")
+					add(sg + l + "E+2")
+				}
+			}
+		}
+	}
+	for _, base := range []*big.Int{new(big.Int).Sub(pow2(64), big.NewInt(1)), pow2(63)} {
+		for d := int64(-20); d <= 20; d++ {
+			v := new(big.Int).Add(base, big.NewInt(d))
+			add(v.String())
+			add("-" + v.String())
+			add(v.String() + "e0")
+		}
+	}
 	for i := 0; i < extra; i++ {
 		// random mantissa digits, dot position and exponent around the uint64/int64 limits
 		nd := 1 + r.Intn(22)
